@@ -200,6 +200,8 @@ class Executor:
 
     def valid_ref(self, st, v):
         """Well-typed heap assumption: every reference read from the state is allocated."""
+        if self.spec and any(k.startswith("$q_") for k in getattr(self, "_cur_spec_env", ())):
+            return v      # under a quantifier of a contract expression: no side facts (they would guard the formula)
         if isinstance(v, Val) and v.t.mutable:
             st.assume(z3.And(v.z >= 0, v.z < st.next_ref))
         return v
